@@ -9,6 +9,7 @@
 //! to the worker, so a stack overflow, abort, OOM kill or hang leaves a `call` without `ret`,
 //! followed by a parent-written `crash` / `hang` event.
 
+mod jview;
 mod project;
 
 use netflow_parser::static_versions::{v5, v7};
@@ -297,15 +298,25 @@ fn worker_loop(o: Opts) {
                                 match (a, b) {
                                     (Ok(Ok(a)), Ok(Ok(b))) => {
                                         let wf = serde_json::from_str::<Value>(&a).is_ok();
-                                        json!({"st": "ok", "wellformed": wf, "twice_equal": a == b,
+                                        let jl = jview::jleaves(&a);
+                                        let sl = jview::sleaves(&res);
+                                        let d = (0..jl.leaves.len().max(sl.len()))
+                                            .find(|i| jl.leaves.get(*i) != sl.get(*i));
+                                        let at = |v: &Vec<String>, i: Option<usize>| -> String {
+                                            i.and_then(|i| v.get(i).cloned()).unwrap_or_default().chars().take(80).collect()
+                                        };
+                                        json!({"st": "ok", "wellformed": wf && jl.ok, "twice_equal": a == b,
                                                "len_kib": (a.len() / 1024) as u64, "sha": fnv(a.as_bytes()),
-                                               "text": ""})
+                                               "nj": jl.leaves.len() as u64, "ns": sl.len() as u64,
+                                               "jsha": fnv(jl.leaves.join("\u{1}").as_bytes()),
+                                               "ssha": fnv(sl.join("\u{1}").as_bytes()),
+                                               "dj": at(&jl.leaves, d), "ds": at(&sl, d)})
                                     }
-                                    (Ok(Err(_)), _) | (_, Ok(Err(_))) => json!({"st": "err", "wellformed": false, "twice_equal": false, "len_kib": 0, "sha": "", "text": ""}),
-                                    _ => json!({"st": "panic", "wellformed": false, "twice_equal": false, "len_kib": 0, "sha": "", "text": ""}),
+                                    (Ok(Err(_)), _) | (_, Ok(Err(_))) => json!({"st": "err", "wellformed": false, "twice_equal": false, "len_kib": 0, "sha": "", "nj": 0, "ns": 0, "jsha": "", "ssha": "", "dj": "", "ds": ""}),
+                                    _ => json!({"st": "panic", "wellformed": false, "twice_equal": false, "len_kib": 0, "sha": "", "nj": 0, "ns": 0, "jsha": "", "ssha": "", "dj": "", "ds": ""}),
                                 }
                             } else {
-                                json!({"st": "off", "wellformed": false, "twice_equal": false, "len_kib": 0, "sha": "", "text": ""})
+                                json!({"st": "off", "wellformed": false, "twice_equal": false, "len_kib": 0, "sha": "", "nj": 0, "ns": 0, "jsha": "", "ssha": "", "dj": "", "ds": ""})
                             };
                             json!({"e": "ret", "p": p, "out": items, "caches": caches(&ps), "alloc": alloc, "json": js})
                             }
